@@ -67,4 +67,4 @@ class Watchdog(LiteXModule):
         if isinstance(crg_rst, Signal):
             self.reset_timer = WaitTimer(reset_delay)
             self.comb += self.reset_timer.wait.eq(self.enable & self.execute & self.reset_mode)
-            self.comb += If(self.reset_timer.done, crg_rst.eq(1))
+            self.comb += If(self.reset_timer.wait & self.reset_timer.done, crg_rst.eq(1))
